@@ -83,8 +83,11 @@ def build_cases(spec):
             o = programs.Opts(max_defs=3, boundary=(r.random() < 0.25))   # some programs saturate their arithmetic
             p = programs.Gen(r, o).program()
             lines = programs.to_lines(p, programs.Speller(r))
-            if r.random() < 0.4:
-                files, main = layouts.split_tokens([t for l in lines for t in l], r, max_files=2)
+            q = r.random()
+            if q < 0.3:
+                files, main = layouts.split_tokens([t for l in lines for t in l], r, max_files=3)
+            elif q < 0.55:
+                files, main = layouts.split_lines(lines, r, max_files=3)      # long main file, short included files with any name order
             else:
                 files, main = {"main": layouts.canonical(lines)}, "main"
             out.append(("generated", files, main, None))
